@@ -331,20 +331,20 @@ fn c06_hier(rng: &mut Rng) -> Case {
 /// Independent re-run of the clustering on the table (f32 arithmetic as the library), used only to
 /// REJECT inputs on which two live distances tie at some step (ties are broken by hash-map order).
 /// Returns the number of executed `(idx.cmp(a), idx.cmp(b))` arms [LL, LG, GG] when tie-free.
-pub fn simulate(method: &str, tids: &[u32], table: &[u32]) -> Option<[u64; 3]> {
+pub fn simulate(method: &str, tids: &[Vec<u32>], table: &[u32]) -> Option<[u64; 3]> {
     let n = tids.len();
-    let mut sets: Vec<Option<Vec<u32>>> = tids.iter().map(|t| Some(vec![*t])).collect();
+    let mut sets: Vec<Option<Vec<u32>>> = tids.iter().map(|t| Some(t.clone())).collect();
     let mut dm: BTreeMap<(usize, usize), f32> = BTreeMap::new();
     for i in 0..n {
         for j in i + 1..n {
-            dm.insert((i, j), cb_dist(tids, table, &[tids[i]], &[tids[j]]));
+            dm.insert((i, j), cb_dist(tids, table, &tids[i], &tids[j]));
         }
     }
     let mut arms = [0u64; 3];
     loop {
         let mut vals: Vec<u32> = dm.values().map(|v| v.to_bits()).collect();
         vals.sort_unstable();
-        if vals.windows(2).any(|w| w[0] == w[1]) || dm.values().any(|v| !v.is_finite()) {
+        if vals.windows(2).any(|w| w[0] == w[1]) || dm.values().any(|v| v.is_nan()) {
             return None;
         }
         if dm.is_empty() {
@@ -355,6 +355,7 @@ pub fn simulate(method: &str, tids: &[u32], table: &[u32]) -> Option<[u64; 3]> {
         let mut merged = sets[a].take().unwrap();
         merged.extend(sets[b].take().unwrap());
         merged.sort_unstable();
+        merged.dedup();
         let mut fresh: Vec<((usize, usize), f32)> = vec![];
         for (idx, s) in sets.iter().enumerate() {
             let Some(s) = s else { continue };
@@ -437,6 +438,12 @@ fn gen_table(rng: &mut Rng, n: usize, method: &str, exact_avg: bool) -> (Vec<u32
         t[i] = 0x7f7f_ffff;
         return (t, "with-f32-max");
     }
+    if rng.chance(1, 8) && !t.is_empty() {
+        // one pair at distance +infinity (`1 / similarity - 1` of two sets without anything in common)
+        let i = rng.below(t.len() as u64) as usize;
+        t[i] = 0x7f80_0000;
+        return (t, "with-infinity");
+    }
     if rng.chance(1, 6) && !t.is_empty() {
         // one pair of different sets at distance exactly 0
         let i = rng.below(t.len() as u64) as usize;
@@ -488,11 +495,43 @@ fn c17(rng: &mut Rng, _tier: &str, _idx: usize) -> Case {
         let mut sel = tids.clone();
         rng.shuffle(&mut sel);
         let mut found = None;
+        let multi = n >= 2 && rng.chance(1, 3);
         for attempt in 0..40 {
             if attempt == 30 {
                 n = n.min(5);
             }
-            let ids_n = &sel[..n];
+            let ids_n: Vec<Vec<u32>> = if multi {
+                // input sets of 1..4 terms each, pairwise different, overlapping: many of them hold
+                // the largest (or the smallest) term of the run, so that the union of two clusters
+                // shares its last (first) id with both parts
+                let hub_hi = *sel[..n].iter().max().unwrap_or(&0);
+                let hub_lo = *sel[..n].iter().min().unwrap_or(&0);
+                let mut out: Vec<Vec<u32>> = vec![];
+                let mut guard = 0;
+                while out.len() < n && guard < 50 * n + 50 {
+                    guard += 1;
+                    let k = rng.range(1, 4) as usize;
+                    let mut st: BTreeSet<u32> = (0..k).map(|_| sel[rng.below(n as u64) as usize]).collect();
+                    if rng.chance(1, 2) {
+                        st.insert(hub_hi);
+                    }
+                    if rng.chance(1, 4) {
+                        st.insert(hub_lo);
+                    }
+                    let v: Vec<u32> = st.into_iter().collect();
+                    if !out.contains(&v) {
+                        out.push(v);
+                    }
+                }
+                if out.len() < n {
+                    sel[..n].iter().map(|t| vec![*t]).collect()
+                } else {
+                    out
+                }
+            } else {
+                sel[..n].iter().map(|t| vec![*t]).collect()
+            };
+            let ids_n = &ids_n;
             let (table, style) = gen_table(rng, n, method, exact_avg);
             if let Some(arms) = simulate(method, ids_n, &table) {
                 found = Some((ids_n.to_vec(), table, style, arms));
@@ -501,7 +540,14 @@ fn c17(rng: &mut Rng, _tier: &str, _idx: usize) -> Case {
             c.stat("tables_rejected_for_ties", 1);
         }
         let Some((ids_n, table, style, arms)) = found else { continue };
-        c.op(format!("link {} 0 {} {}", method, ids_str(&ids_n), ids_str(&table)));
+        if ids_n.iter().all(|s| s.len() == 1) {
+            let flat: Vec<u32> = ids_n.iter().map(|s| s[0]).collect();
+            c.op(format!("link {} 0 {} {}", method, ids_str(&flat), ids_str(&table)));
+        } else {
+            let sets: Vec<String> = ids_n.iter().map(|s| ids_str(s)).collect();
+            c.op(format!("linkm {} 0 {} {}", method, sets.join("|"), ids_str(&table)));
+            c.stat("runs_with_overlapping_input_sets", 1);
+        }
         c.stat(&format!("runs_{method}"), 1);
         c.stat(&format!("table_{style}"), 1);
         c.stat(
